@@ -100,6 +100,18 @@ PROPS = {
                          'that the timer fires each cycle (C12) - composition of the registration with the timer pass'],
         'design_ref': '6 (C16)',
     },
+    'C12': {
+        'explanation': 'add_timer (one new registration due delta after the call, others untouched, thread woken), remove_timer and '
+                       'unsubscribe (filter semantics for lists of any length: afterwards no registration with the callback is left, all '
+                       'others kept in order), one iteration of the background thread: per visited registration called exactly when due, '
+                       'once, with its cookie (no-early), periodic re-arm by whole periods to the first instant >= now (no-drift), '
+                       'one-shot removed, no other registration altered / removed / reordered (independence), wake-up not later than any '
+                       'visited remaining deadline, sleep only for a positive time ending no later than the computed wake-up.',
+        'out_of_scope': ['"no later than delta plus scheduling latency" in real time (the OS wakes the thread when Queue.get times out)',
+                         'callbacks that edit the timer list while the pass runs (assumed effect-free here; the snapshot iteration and the '
+                         'still-registered checks are verified as code, their multi-thread behaviour is not)'],
+        'design_ref': '6 (C12)',
+    },
 }
 
 LEVEL_TEXT = ('Deductive proof by contract: the real function bodies are re-read from /repo on every run, symbolically executed '
